@@ -132,14 +132,35 @@ def r174(ctx, fx):
             pushed_names |= {t[1] for t in lib.subterms(d) if isinstance(t, tuple) and len(t) == 2 and t[0] == "v"}
         # a let-bound concatenation `let del = format!("{}{}", del, eq)` shadows: resolve through lets
         lets = {}
+        expansion_temps = {s["pat"]["name"] for s in lib.hwalk(a["body"]) if s.get("k") == "let" and s["pat"].get("k") == "bind" and (s.get("exp") or s["pat"].get("exp"))}
+        expansion_temps |= {"args"}     # the temporaries of format_args!: their users mention the formatted values directly as well
         for s in lib.hwalk(a["body"]):
-            if s.get("k") == "let" and s["pat"].get("k") == "bind" and "init" in s:
-                used = {lib.hpath(x) for x in lib.hwalk(s["init"]) if x.get("k") == "path" and (x.get("res") or {}).get("dk") == "Local"}
+            if s.get("k") == "let" and s["pat"].get("k") == "bind" and "init" in s and s["pat"]["name"] not in expansion_temps:
+                used = {lib.hpath(x) for x in lib.hwalk(s["init"]) if x.get("k") == "path" and (x.get("res") or {}).get("dk") == "Local"} - expansion_temps
                 lets.setdefault(s["pat"]["name"], set()).update(used)
         covered = set(pushed_names)
         for nm in list(pushed_names):
             covered |= lets.get(nm, set())
-        only_ins_pushed = [nm for nm in pushed_names if nm in ins_names and nm not in lets]
+        # what the tracker is advanced over, resolved through the arm's lets down to the names the chunk patterns bind.  A let that shadows a
+        # pattern name (`let del = format!("{}{}", del, eq)`) refers to the pattern names in its initialiser.
+        def resolve(nm, depth=4, shadow_ok=True):
+            if nm in lets and depth:
+                out = set()
+                for u in lets[nm]:
+                    out |= {u} if (u == nm or u not in lets) else resolve(u, depth - 1)
+                return out
+            return {nm}
+        advanced_over = set()
+        for nm in pushed_names:
+            advanced_over |= resolve(nm)
+        ins_pushed = sorted(advanced_over & ins_names)
+        if len(chunk_kinds) > 1 and pushes and ins_pushed:
+            ctx.finding(rid, key + "|inserted-text", "the position tracker is advanced over text that contains the inserted chunk `%s`: the tracker follows the *old* "
+                        "buffer, so every later edit on that line is misplaced (and overlaps this one) whenever a line break sits differently in the old and the "
+                        "new text" % ins_pushed[0], "%s:%s" % (g.file, a.get("ln")))
+        if len(chunk_kinds) > 1 and pushes and not (del_eq_names <= advanced_over):
+            ctx.finding(rid, key + "|consumed-text", "the position tracker is not advanced over all of the consumed chunks %s of a merged edit" % sorted(del_eq_names - advanced_over),
+                        "%s:%s" % (g.file, a.get("ln")))
         if chunk_kinds[0] == "Insert" and pushes:
             ctx.finding(rid, key, "the position tracker is advanced over inserted text: every later edit is shifted", "%s:%s" % (g.file, a.get("ln")))
         if chunk_kinds[0] in ("Delete", "Equal") and not (del_eq_names & covered):
